@@ -54,6 +54,9 @@ BASE_PAIRS = [
     ([1], [True]), ([1], [1.0]), ({"a": False}, {"a": 0}), ([[0]], [[False]]), ("\U0001d11e", "\U0001d11e"),
     (0.1 + 0.2, 0.3), (1.5, 1.5), (True, True), (True, False), ([True, 1], [1, True]), ({"a": [1, {"b": 0}]}, {"a": [1, {"b": False}]}),
     ([None], [False]), ([""], [None]), ({"": 0}, {"": False}), ([1, [2, [3, True]]], [1, [2, [3, 1]]]),
+    # a string is no array of its characters, an object no array of its members or names
+    ("ab", ["a", "b"]), ("a", ["a"]), ("", []), ("null", ["n", "u", "l", "l"]), (["ab"], [["a", "b"]]), ({"k": "xy"}, {"k": ["x", "y"]}),
+    ({"a": 1}, [["a", 1]]), ({"a": 1}, ["a"]), ({}, ""), ("a", {"a": None}), ("ab", "ab"), (["a", "b"], ["a", "b"]), ("\U0001d11e", ["\ud834", "\udd1e"]),
     # numbers as decimal.Decimal (what json.loads(..., parse_float=Decimal) hands over): compared by exact value
     (Decimal("0.1"), Decimal("0.1")), (Decimal("0.1"), Decimal("0.10")), (Decimal("0.1"), 0.1), (Decimal("0.5"), 0.5), (Decimal("1.0"), 1),
     (Decimal("1"), True), (2 ** 53, Decimal("9007199254740993.0")), (2 ** 53, Decimal("9007199254740992.0")), (Decimal("1e400"), 10 ** 400),
